@@ -95,6 +95,18 @@ impl SigningError {
     }
 }
 
+#[cfg(feature = "verif")]
+impl SigningError {
+    /// Verification hook: constructor usable from outside the crate.
+    #[must_use]
+    pub fn verif_new(msg: &str) -> Self {
+        Self {
+            msg: msg.to_string(),
+            source: None,
+        }
+    }
+}
+
 impl fmt::Display for SigningError {
     fn fmt(&self, f: &mut fmt::Formatter) -> fmt::Result {
         write!(f, "Key signing error: {}", self.msg)
